@@ -121,10 +121,12 @@ pub fn c11(a: &Args) -> (Stats, String) {
     }
     if a.thorough {
         // every 19-digit power-of-ten multiple and dense windows around 10^18 and 2^63
-        for k in 0..4096u64 {
+        for k in 0..32768u64 {
             ws.push(1_000_000_000_000_000_000 + k);
+            ws.push(9_999_999_999_999_999_999 - k);
             ws.push((1u64 << 63) + k);
             ws.push((1u64 << 63) - 1 - k);
+            ws.push(u64::MAX - k);
         }
     }
     ws.sort();
